@@ -10,6 +10,7 @@ def run(tier, seed):
     rng, q = run.rng, run.quick
     loader.load()
     tc.mc_structure(run, "C12", geoms_quick=(1, 2, 3))
+    run.model_check("MC_Structure", "MC_Structure_C12_g6_s1.cfg")       # growth: a recognition site with an ambiguity code (CD, reverse HG)
     recipes = []
     for cspec, s, marks in tc.generic_members(rng, 3 if q else 12):
         n = len(s)
